@@ -24,3 +24,4 @@ def rules(ctx):
     S.replaced_range_rules(ctx)
     S.survey_residue_rules(ctx)
     S.relocation_content_rules(ctx)
+    S.survey2_rules(ctx)
